@@ -1,5 +1,7 @@
 import OpcuaModel.Model.NodeId
 import OpcuaModel.Model.Parse
+import OpcuaModel.Model.Xml
+import OpcuaModel.Model.Json
 /-! # Meaning of the Python primitives the translator's output mentions (hand written; trusted base of tie A) -/
 namespace Opcua
 
@@ -133,5 +135,17 @@ structure IntVal where
 /-- the `value` field of `UABoolean`: `pd.NA` is `none` -/
 structure BoolVal where
   value : Option Bool
+
+/-- the `value` field of `UAString` / `UAGuid`: `pd.NA` is `none` -/
+structure StrVal where
+  value : Option Str
+/-- the fields of `UALocalizedText`: `pd.NA` is `none` -/
+structure LocText where
+  text : Option Str
+  locale : Option Str
+/-- `xml.sax.saxutils.escape(s)`: `&`, `<`, `>` (the hand model's text escaping, validated against the library by C07 / C08) -/
+def pyXmlEscape (s : Str) : Str := Xml.escText s
+/-- `json.dumps(s, ensure_ascii=False)` of a `str` (the hand model's quoting, validated against the library by C10) -/
+def pyJsonDumps (s : Str) : Str := pyJsonQuote s
 
 end Opcua
